@@ -827,6 +827,8 @@ func (e *Exec) VerifyFunction(sp *FnSpec, prop string) (err error) {
 	e.genStart = time.Now()
 	// (a function abandoned in the middle of a specification or discovery pass must not leave its mode behind)
 	e.specMode, e.discovery, e.oldState = 0, 0, nil
+	e.inOldSpec, e.dstIsDiscard, e.appendOwner, e.tolerant = false, false, nil, false
+	e.specDefs, e.specAssert, e.specBase, e.disc, e.discDepth, e.freshBase, e.panicAllowed = nil, false, 0, nil, 0, nil, nil
 	e.codeReads = map[string]bool{}
 	loadHook = nil
 	if len(sp.NeverReads) > 0 {
